@@ -116,7 +116,7 @@ func runConcurrent(t *verifsim.Tape, cfg engine.Config) *engine.Outcome {
 			mh := sh.Method(m.Name)
 			x := &cexchange{svc: s, m: m, mode: "valid"}
 			x.payload = genPayload(t, d, m)
-			x.result = genResult(t, d, m, m.Responses[0])
+			x.result = genResult(t, d, m, m.Responses[len(m.Responses)-1])
 			switch t.Draw("c20-mode", 6) {
 			case 0:
 				if m.Payload != nil {
@@ -218,7 +218,11 @@ func runConcurrent(t *verifsim.Tape, cfg engine.Config) *engine.Outcome {
 				continue
 			}
 			if x.ex.HandlerPanic != nil {
-				o.Violate("handler_panic", "handler_panic:concurrent:"+stackClass(x.ex), "%s: %v\n%s", where, x.ex.HandlerPanic, genFrames(x.ex.PanicStack))
+				sig := panicCause(d, x.m, x.result, x.ex)
+				if strings.HasPrefix(sig, "handler_panic:") {
+					sig = "handler_panic:concurrent:" + stackClass(x.ex)
+				}
+				o.Violate("handler_panic", sig, "%s: %v\n%s", where, x.ex.HandlerPanic, genFrames(x.ex.PanicStack))
 				continue
 			}
 			if c := classifyFailureAny(d, x.m, x.payload, x.result, x.ex); c != "" {
@@ -260,7 +264,9 @@ func runConcurrent(t *verifsim.Tape, cfg engine.Config) *engine.Outcome {
 						want = gen.Expected(d, gen.Project(d, x.result, u, x.m.FixedView), &spec.Attr{Type: &spec.Type{Kind: spec.Object, Fields: u.Attr.Type.Fields}})
 						got = gen.Project(d, got, u, x.m.FixedView)
 					}
-					if diff := gen.Diff(want, got, ""); diff != "" {
+					if diff := gen.Diff(want, got, ""); diff != "" && sameNestedTypeTwoViews(d, resultType(d, x.m)) && (strings.HasPrefix(diff, "sibling") || strings.HasPrefix(diff, "child")) {
+						o.Features["known_defect_class_in_the_way"]++
+					} else if diff != "" {
 						o.Violate("leak_result", "leak_result", "%s: the client got a result that is not this request's: %s\n  returned %s\n  received %s", where, diff, gen.Show(x.result), gen.Show(got))
 					}
 				}
